@@ -70,7 +70,7 @@ def gen_case(rng, enabled=True):
     for it in range(3000):
         line = pr.proc(0)
         guard = 0
-        while waiting(line) and guard < 50:
+        while waiting(line) and guard < 1000:
             # the sender waits for a flow control: the receiver answers at once (no deadline is ever missed by the peer)
             guard += 1
             pr.op(0, 'rx', rid, int(ext), hx(pfx + bytes([0x30, bs, 3 if (trickle and not pr.done[0]) else 0])))
